@@ -21,6 +21,10 @@ def operand(o):
 
 def sqf_of(op):
     k = op["op"]
+    if k == "new" and op.get("h"):
+        return "%s = createHashMap" % op["x"]            # a hashmap with the keys "k0", "k1", ..: for the heap model a container whose slot i is key "k<i>"
+    if k == "set" and op.get("h"):
+        return '%s set ["k%d", %s]' % (op["x"], op["i"], operand(op["val"]))
     if k == "new":
         return "%s = [%s]" % (op["x"], ",".join(str(i) for i in op["lits"]))
     if k == "alias":
@@ -123,6 +127,52 @@ def directed_cycle_histories():
     return out
 
 
+def hashmap_as_slots(v):
+    """pure projection: an observed hashmap with keys "k<i>" is shown to the heap model as the container it stands for:
+    slot i holds the value of key "k<i>", absent keys are nil (exactly what `set` does to an array it grows)"""
+    if isinstance(v, dict):
+        if v.get("t") == "h":
+            slots = {}
+            for kv in v["h"]:
+                key = kv[0]
+                if key.get("t") != "s" or not re.fullmatch(r"k\d+", key.get("s", "")):
+                    raise vlib.MachineryError("hashmap key outside the projection: %s" % key)
+                slots[int(key["s"][1:])] = hashmap_as_slots(kv[1])
+            n = max(slots) + 1 if slots else 0
+            return {"t": "a", "a": [slots.get(i, {"t": "nil"}) for i in range(n)]}
+        return {k: hashmap_as_slots(x) for k, x in v.items()}
+    if isinstance(v, list):
+        return [hashmap_as_slots(x) for x in v]
+    return v
+
+
+def directed_hashmap_histories():
+    """hashmaps as containers of the heap: sharing through a slot, and every way to close a cycle through a hashmap"""
+    lit = lambda v: {"k": "lit", "v": v}
+    var = lambda x: {"k": "var", "x": x}
+    newh = lambda x: {"op": "new", "x": x, "lits": [], "h": True}
+    hset = lambda x, i, val: {"op": "set", "x": x, "i": i, "val": val, "h": True}
+    new = lambda x, lits: {"op": "new", "x": x, "lits": lits}
+    pb = lambda x, val: {"op": "pushBack", "x": x, "val": val}
+    out = []
+    # sharing: the slot refers to the array, it holds no copy of it
+    out.append([new("a", [1]), newh("c"), hset("c", 0, var("a")), pb("a", lit(7)), hset("c", 1, var("a")), {"op": "set", "x": "a", "i": 0, "val": lit(5)}, {"op": "resize", "x": "a", "n": 1}])
+    out.append([new("a", []), newh("c"), hset("c", 1, var("a")), pb("a", lit(7)), new("b", [2]), pb("b", var("c")), pb("a", lit(8)), hset("c", 0, lit(3))])
+    out.append([newh("b"), newh("c"), hset("b", 0, var("c")), hset("c", 0, lit(4)), new("a", [1]), hset("c", 1, var("a")), pb("a", lit(9))])
+    # cycles: the map in itself; map - array - map; array - map - array; map - map; through two containers
+    out.append([newh("c"), hset("c", 0, var("c")), hset("c", 0, lit(1)), hset("c", 1, var("c"))])
+    for ins in (pb("a", var("c")), {"op": "pushBackUnique", "x": "a", "val": var("c")}, {"op": "set", "x": "a", "i": 0, "val": var("c")}, {"op": "set", "x": "a", "i": 3, "val": var("c")}):
+        out.append([new("a", [1]), newh("c"), hset("c", 0, var("a")), ins, pb("a", lit(7)), hset("c", 1, lit(2))])
+    out.append([new("a", [1]), newh("c"), hset("c", 0, var("a")), new("b", []), pb("b", var("c")), {"op": "append", "x": "a", "y": "b"}, pb("a", lit(7))])
+    for slot in (0, 1):
+        out.append([newh("c"), new("a", []), pb("a", var("c")), hset("c", slot, var("a")), hset("c", slot, lit(5)), pb("a", lit(7))])
+        out.append([newh("b"), newh("c"), hset("b", 0, var("c")), hset("c", slot, var("b")), hset("c", slot, lit(5)), hset("b", 1, lit(6))])
+        out.append([newh("c"), new("a", []), new("b", [0]), pb("a", var("c")), pb("b", var("a")), hset("c", slot, var("b")), hset("c", slot, lit(5))])
+    # a refused insertion over an occupied slot keeps what was there
+    out.append([newh("c"), hset("c", 0, lit(4)), new("a", [1]), pb("a", var("c")), hset("c", 0, var("a")), pb("a", lit(7))])
+    return out
+
+
 def random_histories(rng, n, length):
     """Deeper random histories (thorough tier). Generated blindly; operations that the spec does not
     enable in the reached state are dropped by replaying the candidate through the real VM's type
@@ -188,6 +238,7 @@ def run(rep, tier, seed, replay):
     wdir = vlib.workdir("C08")
     rep.assumptions += [
         "small-scope: 3 variables, <=4 heap cells in the exhaustive part; element universe {numbers, array refs, nil}",
+        "hashmaps take part as containers in directed histories only: a hashmap with the keys k0, k1, .. is shown to the heap model as the container whose slot i is key k<i> (set = the array set that grows with nils); keys are not containers here",
         "deleteRange is specified as the inclusive index range of tests/sqf/deleteRange.sqf",
         "observation = printed tree of every watched variable + diagnostic codes of the step (Logger capture)",
         "TLC 1.8 / Json+IOUtils community modules; driver projection harness/cmd_steps.cpp",
@@ -233,6 +284,7 @@ def run(rep, tier, seed, replay):
         cases += cases_from_histories(random_histories(rng, nrand, length), "r")
         cases += cases_from_histories(directed_histories(), "d")
         cases += cases_from_histories(directed_cycle_histories(), "y")
+        cases += cases_from_histories(directed_hashmap_histories(), "h")
     rep.evaluations = len(cases)
     rep.rule = ("every transition (state, op) of the bounded Heap_MC state graph replayed as the shortest history reaching it, "
                 "plus seeded random histories; non-trivial = history with >=2 operations; distinct by operation sequence")
@@ -240,7 +292,7 @@ def run(rep, tier, seed, replay):
     # ---- 4. drive the implementation
     events = vlib.run_driver("steps", cases, wdir, kind="rel", timeout_s=20)
     by = vlib.events_by_case(events)
-    execs = [(c["id"], [e for e in by.get(c["id"], []) if e["e"] in ("Obs", "Crash")]) for c in cases]
+    execs = [(c["id"], [hashmap_as_slots(e) for e in by.get(c["id"], []) if e["e"] in ("Obs", "Crash")]) for c in cases]
     # ---- 5. trace validation by TLC
     bad, totals, results = vlib.validate_traces("Heap_Trace", "Heap_Trace.cfg", execs, wdir, "c08")
     for r in results:
@@ -268,7 +320,7 @@ def run(rep, tier, seed, replay):
         b = min(bs, key=lambda x: len(cmap[x["id"]]["steps"]))
         case = cmap[b["id"]]
         ev2 = vlib.run_driver("steps", [case], wdir, kind="rel", timeout_s=20, jobs=1, tag="confirm")
-        ex2 = [(case["id"], [e for e in ev2 if e["e"] in ("Obs", "Crash")])]
+        ex2 = [(case["id"], [hashmap_as_slots(e) for e in ev2 if e["e"] in ("Obs", "Crash")])]
         bad2, _, _ = vlib.validate_traces("Heap_Trace", "Heap_Trace.cfg", ex2, wdir, "c08confirm", chunks=1)
         if not bad2:
             rep.notes.append("rejection %s of %s did not repeat" % (key, b["id"]))
